@@ -51,6 +51,14 @@ def _n(t):
     if t[0] == "lit":
         return ("lit", t[1])
     t = tuple(_n(x) if isinstance(x, tuple) else x for x in t)
+    # identities of the slicing primitives (their tables are C03's): s[0..] = s = s[..len], s[..0] = "" = s[len..]
+    if t[0] == "call" and len(t) == 5 and t[1] in (KS + "str_from", KS + "str_up_to"):
+        whole = t[4] == ("int", 0, "usize") if t[1].endswith("str_from") else t[4] == ("len", t[3])
+        empty = t[4] == ("len", t[3]) if t[1].endswith("str_from") else t[4] == ("int", 0, "usize")
+        if whole:
+            return t[3]
+        if empty:
+            return ("lit", b"")
     if t[0] == "bin" and t[1] == "Add":
         a, b = sorted([t[2], t[3]], key=repr)
         return ("bin", "Add", a, b)
@@ -84,11 +92,26 @@ def run(ctx):
     ctx.floor("DLG", 6)
 
 
+def _renorm(t):
+    """normalising a pattern that already is a normalised &str changes nothing: as_str(&PatternNorm::new(d.as_str())) = d.as_str()"""
+    if not isinstance(t, tuple) or not t:
+        return t
+    t = tuple(_renorm(x) if isinstance(x, tuple) else x for x in t)
+    AS, NEW = S + "pattern::PatternNorm::as_str", S + "pattern::PatternNorm::new"
+    if t[0] == "call" and t[1] == AS and len(t) == 4 and t[3][0] == "ref" and t[3][1][0] == "call" and t[3][1][1] == NEW \
+            and len(t[3][1]) == 4 and t[3][1][3][0] == "call" and t[3][1][3][1] == AS:
+        return t[3][1][3]
+    return t
+
+
 def _paths(prog, b, helpers):
     paths = sym.paths_of(b, prog, inline=helpers)
     for p in paths:
-        p.conds = tuple(table.strip_gargs(c) for c in p.conds)
-    return paths
+        p.conds = tuple(_renorm(table.strip_gargs(c)) for c in p.conds)
+        if isinstance(p.value, tuple):
+            p.value = _renorm(table.strip_gargs(p.value))
+    # (re-normalisation can make two conditions of a path contradict each other: such paths are infeasible)
+    return [p for p in paths if not any(sym.contradicts([c2 for c2 in p.conds if c2 is not c], c) for c in p.conds)]
 
 
 def _decide(ctx, prog, name, b, paths, rows, vdom, constraints=()):
@@ -172,7 +195,8 @@ def terminator_tables(ctx, prog):
         b = ctx.anchor(prog, ST + ty + "::next")
         if b is None:
             continue
-        paths = _paths(prog, b, set())
+        # split_once / rsplit_once are find / rfind plus the two cuts (C04 TAB-SPLITONCE): look inside
+        paths = _paths(prog, b, {S + "split_once::split_once", S + "split_once::rsplit_once"})
         f = call(S + ("find" if fwd else "rfind"), THIS, D)
         pos = ("vfield", f, 1, 0)
         if fwd:
@@ -196,8 +220,14 @@ def terminator_tables(ctx, prog):
             Row([("is", STATE, 0), ne0, ("is", f, 0)], last, name="Normal, no delimiter: whole remainder"),
             Row([("is", STATE, 1), ("is", ES, 1), ne0], expect_some(ch, rem), name="Empty(Continue), chars left"),
         ]
+        def normal_nonempty(case, LD=LD):
+            # constructor invariant (DLG rows): the Normal state holds a non-empty delimiter
+            try:
+                return case.variants.get(STATE) != 0 or case.val(LD) != case.val(Int(0))
+            except KeyError:
+                return True
         _decide(ctx, prog, ty + "::next", b, paths, rows, {STATE: [0, 1], ES: [0, 1], f: [0, 1]},
-                constraints=[table.found_fits(f, LT, LD)])
+                constraints=[table.found_fits(f, LT, LD), normal_nonempty])
 
 
 def _local_helpers(prog, mod, keep=()):
